@@ -31,7 +31,8 @@ CHECKS = {
             'has a total+functional definition, and the sampling set the samplers read is exactly 1..support.',
             'Trusts CryptoMiniSat; trial variables = 1..variables_per_sample() (C14).', '6 C03'),
     'C04': (OT, 'C+A', 'library-performed exhaustive enumeration of every RandomGen draw sequence (choice oracle in place of '
-                       'random.randrange) with the real rejection test; each accepted candidate judged by the reference validator',
+                       'random.randrange) with the real rejection test; each accepted candidate judged by the reference validator; '
+                       'CrossHair on each constraint\'s potential_sample_conforms with a symbolic column',
             'For every corpus design with <=5000/60000 candidates, every draw sequence the real RandomGen can make is '
             'visited once through the enumerator\'s own generation methods; every accepted candidate must be a valid '
             'sequence (trial count, derivations, crossing incl. additional crossings, every constraint).',
@@ -154,7 +155,8 @@ CHECKS = {
             'trial / the preceding outputs with NaN exactly where undefined, cumulative distributions restart per attempt.',
             'Integers stand for sampled reals (no float arithmetic in the library); at most 2 resampling attempts.', '6 C22'),
     'C17': (OT, 'A', 'solver-GENERATED testing of the real mismatch checker: z3 models of the reference (valid), z3 models '
-                     'violating exactly one requirement group, and all single-cell perturbations judged by the reference validator',
+                     'violating exactly one requirement group, all single-cell perturbations judged by the reference validator; '
+                     'CrossHair on each constraint\'s potential_sample_conforms with a symbolic column (own block and Repeat)',
             'For every corpus design the real sample_mismatch_experiment is run on z3-generated valid sequences (must report '
             'nothing), on z3-generated sequences that violate exactly one requirement (must report something) and on every '
             'single-cell change of two valid sequences (verdict must equal validity).',
